@@ -44,6 +44,8 @@ OPS = [
     ("get", "/orders/{id}", ("id",)),
     ("delete", "/orders/{id}", ("id",)),
 ]
+# operations that also take a query parameter: it may come from the link like the path parameters, or be generated
+QUERY_PARAMS = {1: ("expand",), 5: ("page",)}
 
 
 def node_alphabet(ids, statuses):
@@ -71,10 +73,11 @@ def build_schema():
     import schemathesis
 
     doc = {"openapi": "3.0.2", "info": {"title": "t", "version": "1"}, "paths": {}}
-    for method, path, variables in OPS:
+    for op_idx, (method, path, variables) in enumerate(OPS):
         item = doc["paths"].setdefault(path, {})
         item[method] = {
-            "parameters": [{"name": v, "in": "path", "required": True, "schema": {"type": "integer"}} for v in variables],
+            "parameters": [{"name": v, "in": "path", "required": True, "schema": {"type": "integer"}} for v in variables]
+            + [{"name": q, "in": "query", "required": True, "schema": {"type": "integer"}} for q in QUERY_PARAMS.get(op_idx, ())],
             "responses": {"200": {"description": "ok"}},
         }
     schema = schemathesis.openapi.from_dict(doc)
@@ -119,10 +122,12 @@ class Builder:
         self.EnsureResourceAvailability = EnsureResourceAvailability
         self.Failure = Failure
 
-        def generated_meta():
+        self.ComponentKind = ComponentKind
+
+        def generated_meta(*kinds):
             return CaseMetadata(
                 generation=GenerationInfo(time=0.0, mode=GenerationMode.POSITIVE),
-                components={ComponentKind.PATH_PARAMETERS: ComponentInfo(mode=GenerationMode.POSITIVE)},
+                components={kind: ComponentInfo(mode=GenerationMode.POSITIVE) for kind in (kinds or (ComponentKind.PATH_PARAMETERS,))},
                 phase=PhaseInfo.generate(),
             )
 
@@ -134,8 +139,14 @@ class Builder:
         path_parameters = dict(zip(variables, values)) if variables else None
         # link-supplied parameters: the container is not a generated component, so the product reads all its
         # current values as overrides; generated ones: container is a generated component and nothing was changed.
-        meta = None if from_link else self.generated_meta()
-        return operation.Case(path_parameters=path_parameters, meta=meta)
+        queries = QUERY_PARAMS.get(op_idx, ())
+        query = {q: 7 for q in queries} or None
+        if from_link == "path" and queries:
+            # path parameters from the link, the query generated and left as it was
+            meta = self.generated_meta(self.ComponentKind.QUERY)
+        else:
+            meta = None if from_link else self.generated_meta(self.ComponentKind.PATH_PARAMETERS, *([self.ComponentKind.QUERY] if queries else []))
+        return operation.Case(path_parameters=path_parameters, query=query, meta=meta)
 
     def evaluate(self, history):
         """history: list of (op_idx, values, status, parent_index|None, from_link). Returns (uaf, rnaac) booleans."""
@@ -181,7 +192,7 @@ def to_model(history):
                 status=status,
                 parent=parent,
                 # an operation without parameters has "all" of them from the link, vacuously
-                all_from_link=bool(from_link) or not variables,
+                all_from_link=(from_link is True) or (from_link == "path" and not QUERY_PARAMS.get(op_idx)) or (not variables and not QUERY_PARAMS.get(op_idx)),
             )
         )
     return nodes
@@ -252,7 +263,7 @@ def describe(history):
                 "params": dict(zip(variables, values)),
                 "status": status,
                 "parent": parent,
-                "params_from_link": bool(from_link),
+                "params_from_link": from_link if isinstance(from_link, str) else bool(from_link),
             }
         )
     return out
@@ -261,7 +272,7 @@ def describe(history):
 def signature(history, verdicts):
     parts = []
     for op_idx, values, status, parent, from_link in history:
-        parts.append(f"{op_idx}:{','.join(map(str, values))}:{status // 100}:{parent}:{int(from_link)}")
+        parts.append(f"{op_idx}:{','.join(map(str, values))}:{status // 100}:{parent}:{from_link if isinstance(from_link, str) else int(from_link)}")
     return "|".join(parts) + "=>" + ",".join(str(v) for v in verdicts)
 
 
@@ -272,7 +283,7 @@ def enumerate_histories(alphabet, length):
     parent_choices = [[None] + list(range(i)) for i in range(length)]
     for symbols in itertools.product(alphabet, repeat=length):
         for parents in itertools.product(*parent_choices):
-            for last_from_link in (True, False):
+            for last_from_link in (True, False, "path") if QUERY_PARAMS.get(symbols[-1][0]) else (True, False):
                 yield [
                     (s[0], s[1], s[2], parents[i], last_from_link if i == length - 1 else True)
                     for i, s in enumerate(symbols)
@@ -354,7 +365,7 @@ def run_shard(spec, emit):
             if rng.random() < 0.5:
                 status = rng.choice([200, 201, 204])
             parent = rng.choice([None] + list(range(i))) if rng.random() < 0.8 else None
-            history.append((op_idx, values, status, parent, rng.random() < 0.7))
+            history.append((op_idx, values, status, parent, rng.choice([True, True, False, "path"]) if QUERY_PARAMS.get(op_idx) else rng.random() < 0.7))
             if i >= 3:
                 handle(list(history), False)
                 done += 1
